@@ -256,6 +256,41 @@ PROPS["C05"] = dict(
     assumptions=["finite coordinates", "width, tolerance > 0, miter limit >= 1", "variable width: attribute 0 > 0"],
 )
 
+PROPS["C06"] = dict(
+    level="translation_validation",
+    level_text="Two parts. (1) PROVED (Props/C06.v): the exact decision procedures of Checker/StrokeCover.v mean what they "
+               "say - an empty answer of check_line_sub settles ALL the points of a horizontal line (every point of the line "
+               "inside a must polygon is covered by a triangle; representatives strictly between consecutive breakpoints, "
+               "both sides constant in between), and an accepted triangle lies with ALL its points (convex combinations) "
+               "within the allowed distance of one segment of the path. (2) VALIDATED per run on polylines in the no-fold "
+               "regime (segments >= 4 widths, turns <= 135 degrees), open and closed, all joins / caps / widths / tolerances "
+               "/ entry points: the harness derives from the INPUT polyline the must polygons (segment rectangles shrunk by "
+               "the tolerance; polygons inscribed in the discs of round joins and caps, so that with round joins and caps the "
+               "covered set is squeezed between the points within w/2 - tol and w/2 + tol of the path) and the allowed reach "
+               "(w/2 times 1 / sqrt 2 for square caps / the miter reach 1/cos(turn/2) when within the limit / sqrt(limit^2+1) "
+               "for a clipped miter, plus the tolerance); Coq decides the inner claim exactly on one line inside up to 12 "
+               "slabs between consecutive vertex ordinates and the outer claim for every triangle; a grid of sample points "
+               "is evaluated directly as well.",
+    level_note="Coverage is decided for all points of the lines scanned, not for the whole plane (no slab lift); that "
+               "the stroker passes on every input is explored, not proved. Must polygons are snapped to a 2^-10 grid inside "
+               "the ideal band (the margin accounts for it).",
+    technique="Coq-verified exact line / triangle checkers + exploration",
+    coq_targets=["theories/Props/C06.vo", "theories/Run/C06.vo"],
+    props_file="theories/Props/C06.v",
+    props_module="Props.C06",
+    harness=[dict(sub="c06", profile="debug")],
+    result_kind="cover",
+    rule="polylines: open with 2-6 points, segment length 4-13 widths, turn within +-135 degrees, or closed jittered regular "
+         "3-6-gons of radius 6-13 widths; coordinates on a 1/8 grid; width 0.5 / 1 / 2; join x start cap x end cap; miter limit "
+         "1 / 2 / 4; tolerance 0.02 / 0.1; entry points tessellate_path, tessellate, tessellate_with_ids, builder; cases with "
+         "at most 48 triangles go to Coq (capped), every case is sampled on a 32x32 (48x48 thorough) grid; non-trivial = at "
+         "least one join",
+    exhaustive_note="none (random inputs); per case the lines scanned are decided exactly for all their points",
+    trusted_base=["harness derivation of must polygons and reach from the input polyline (harness/src/c06.rs)",
+                  "Checker/Region.v crossing-number containment (shared with C01, anchored by C18)"],
+    assumptions=["no-fold regime as stated in the property"],
+)
+
 PROPS["C07"] = dict(
     level="translation_validation",
     level_text="Two parts. (1) PROVED (Props/C07.v) about the statement-level model Model/Sources.v: remap_t_in_range is the "
